@@ -8,13 +8,15 @@ request  {"op":"ds9.interp","toks":[ "nl" | ";" | "(" | ")" | "," | "+" | "-" | 
                                      | {"p": ["<key as written>","<delim>","<value>"]}
                                      | {"c": "<comment text>"} ]}
 reply    {"regions":[{kind,frame,pts,sizes,angle,incl,props,src}]}   (src = statement index)
+"code_regions": the same for the model of the code under test = reference + open deviations (Impl.Ds9Read.currentCode)
 optional "text": the file as characters; the reply then carries "lex_ok" = (Spec.Ds9.lex text == toks)
 -/
 import Driver.Proto
 import RegionsVerif.Spec.Ds9
+import RegionsVerif.Impl.Ds9ReadQuirks
 
 namespace Driver
-open Lean RegionsVerif.Spec.Ds9
+open Lean RegionsVerif.Spec.Ds9 RegionsVerif.Impl.Ds9Read
 
 def jNat (j : Json) : Except String Nat := do
   let i ← jInt j
@@ -109,6 +111,11 @@ def runIdx (st : State) (i : Nat) : List Stmt → List (Nat × Region)
   | [] => []
   | s :: r => (emit st s).map (fun x => (i, x)) ++ runIdx (next st s) (i + 1) r
 
+/-- `runQ`, with the index of the emitting statement attached. -/
+def runIdxQ (q : Quirks) (st : State) (i : Nat) : List Stmt → List (Nat × Region)
+  | [] => []
+  | s :: r => (emit st s).map (fun x => (i, x)) ++ runIdxQ q (nextQ q st s) (i + 1) r
+
 def c10Ops : List (String × Handler) := [
   ("ds9.interp", fun j => do
     let toks ← (← fArr j "toks").mapM tokOf
@@ -126,7 +133,13 @@ def c10Ops : List (String × Handler) := [
           [("lex_ok", .bool false),
            ("lex_diff", .str s!"token {i}: lexer {repr (lt.drop i |>.take 2)} harness {repr (toks.drop i |>.take 2)} (lengths {lt.length}/{toks.length})")]
       | _ => []
+    -- the model of the code under test: the reference with the open deviations (`currentCode`) switched on
+    let code := runIdxQ currentCode init 0 (stmtsOf toks)
+    if code.map (·.2) != interpQ currentCode toks then .error "runIdxQ differs from interpQ" else
     pure (Json.mkObj ([("regions", .arr (tagged.map fun p => regionJson p.1 p.2).toArray),
+                       ("code_regions", .arr (code.map fun p => regionJson p.1 p.2).toArray),
+                       ("quirks", Json.mkObj [("F105", .bool currentCode.lowerCompositeValues),
+                                              ("F106", .bool currentCode.badLastMemberKeepsComposite)]),
                        ("nstmts", ofInt (stmtsOf toks).length)] ++ lexInfo)))
 ]
 
